@@ -219,7 +219,9 @@ fn classify(src: &str, e: &Expr) -> Result<Vec<Option<bool>>, String> {
         }
         // the interpolation as a child of elements of other kinds (raw-text and escapable-raw-text elements included): what an
         // interpolation is does not depend on the element around it
-        for tag in ["style", "title", "textarea", "script", "option", "p"] {
+        // (thorough tier: for one source text in four — the code generator is run once per parent)
+        let tags: &[&str] = if THOROUGH.with(|t| t.get()) && src.len() % 4 != 0 { &[] } else { &["style", "title", "textarea", "script", "option", "p"] };
+        for tag in tags {
             match parse_src::<Root>(&format!("{tag} {{ ({src}) }}")) {
                 Some(root) => out.push(Some(squash(cg.root(&root)).contains(":: sycamore :: rt :: View :: from_dynamic (move ||"))),
                 None => out.push(None),
@@ -439,8 +441,11 @@ fn exhaustive(templates: &[&str], e_fill: &[String], p_fill: &[String], s_fill: 
     }
 }
 
+thread_local! { static THOROUGH: std::cell::Cell<bool> = const { std::cell::Cell::new(false) }; }
+
 pub fn generate(args: &Args) -> Vec<String> {
     let thorough = args.tier == "thorough";
+    THOROUGH.with(|t| t.set(thorough));
     let mut rng = Rng::new(args.seed);
     let budget = if thorough { 40_000 } else { 1_500 };
     let mut srcs: Vec<String> = vec![];
